@@ -389,10 +389,20 @@ func (c *certificateV2) fromTBSCertificate(t *TBSCertificate) error {
 }
 
 func (c *certificateV2) validate() error {
-	// Empty names are allowed
-
 	if len(c.publicKey) == 0 {
 		return ErrInvalidPublicKey
+	}
+
+	// The wire format cannot carry an empty name, a name longer than MaxNameLength or an empty group:
+	// unmarshalDetails refuses all three, so refuse to build (and sign) such a certificate as well.
+	if len(c.details.name) == 0 || len(c.details.name) > MaxNameLength {
+		return NewErrInvalidCertificateProperties("name must be between 1 and %d bytes long", MaxNameLength)
+	}
+
+	for _, group := range c.details.groups {
+		if group == "" {
+			return NewErrInvalidCertificateProperties("groups may not contain an empty string")
+		}
 	}
 
 	if !c.details.isCA && len(c.details.networks) == 0 {
